@@ -205,3 +205,12 @@ func init() {
 	addMutant(mutant{Name: "format/readfileheader-wraps-corrupt-sentinel", Fire: []string{"ORD-18c"},
 		Edits: []edit{{"segment/format.go", "	if m != magic {\n		return nil, types.ErrCorrupt\n	}", "	if m != magic {\n		return nil, fmt.Errorf(\"%w: bad magic %x\", types.ErrCorrupt, m)\n	}"}}})
 }
+
+func init() {
+	addMutant(mutant{Name: "wal/rotation-goroutine-exits-with-lock-held", Fire: []string{"ACC-08"},
+		Edits: []edit{{"wal.go", "		if closed == 1 {\n			w.writeMu.Unlock()\n			return\n		}\n\n		err := w.rotateSegmentLocked(indexStart)", "		if closed == 1 {\n			return\n		}\n\n		err := w.rotateSegmentLocked(indexStart)"}}})
+	addMutant(mutant{Name: "wal/rotation-error-path-skips-unlock", Fire: []string{"ACC-08"},
+		Edits: []edit{{"wal.go", "			w.log.Error(\"rotate error\", \"err\", err)\n		}\n		done := w.awaitRotate", "			w.log.Error(\"rotate error\", \"err\", err)\n			continue\n		}\n		done := w.awaitRotate"}}})
+	addMutant(mutant{Name: "wal/await-rotation-forgets-to-relock", Fire: []string{"ACC-08"},
+		Edits: []edit{{"wal.go", "		w.writeMu.Unlock()\n		<-awaitCh\n		w.writeMu.Lock()", "		w.writeMu.Unlock()\n		<-awaitCh"}}})
+}
